@@ -1036,6 +1036,29 @@ func producerOrder(p *load.Prog, r *oblig.Run, rule string) {
 	for _, an := range cj.AnonFuncs {
 		scan(an)
 	}
+	// producers called from a body that runs as several goroutines at once (a worker-pool function or a go statement
+	// nested inside the producer goroutine): the pass that consults the already-sent maps can run while another pass
+	// is still marking them
+	{
+		var nested []prod
+		saved := prods
+		prods = nil
+		for _, an := range cj.AnonFuncs {
+			for _, an2 := range an.AnonFuncs {
+				scan(an2)
+			}
+		}
+		nested, prods = prods, saved
+		marks, tests := false, false
+		for _, pr := range nested {
+			marks = marks || pr.s.marks
+			tests = tests || pr.s.tests
+		}
+		if len(nested) >= 2 && marks && tests {
+			r.Add(rule, "producers run side by side", p.Pos(nested[0].call.Pos()), "job producers inside a concurrently running body").Fail("the job producers " + nested[0].fn.Name() + " and " + nested[1].fn.Name() + " are called from a function that runs as several goroutines at once: the producer that consults the already-sent maps can reach an individual before the other producer has marked it, so one person is sent as a certain match twice and appears in two results")
+			return
+		}
+	}
 	if len(prods) < 2 {
 		// the producer body is a named function createJobs starts (go sendJobs(...))
 		for _, c := range su.Calls(cj) {
